@@ -36,7 +36,7 @@ func vhPatMatch(pat int, id string) bool {
 	return true // n*: everything but x1
 }
 
-//verif:cfg b_positions=4_positions,_every_sequence_of_2_consecutive_moves(one_move_longer_than_the_radius_and_shorter_than_twice_it) b_neighbours=4(one_inside_the_bounding_square_but_outside_the_circle,one_within_the_radius_of_two_positions)+1_not_matching_the_pattern+1_long_LineString_(an_end_near,_the_centre_far) b_pattern=*|exact|n[12]|n* b_nodwell=both ignorego=1
+//verif:cfg b_positions=4_positions,_every_sequence_of_2_consecutive_moves(one_move_longer_than_the_radius_and_shorter_than_twice_it) b_neighbours=4(one_inside_the_bounding_square_but_outside_the_circle,one_within_the_radius_of_two_positions)+1_not_matching_the_pattern+1_long_LineString_(an_end_near,_the_centre_far) b_pattern=*|exact|n[12]|n* b_nodwell=both b_collection=created_after_the_fence|exists_before_it|exists_before_it_and_is_emptied_(DROP_or_DEL_of_every_object)_and_created_again ignorego=1
 func VH_C20_roam() {
 	s := vhServer()
 	pat := vchoose(4)
@@ -46,9 +46,25 @@ func VH_C20_roam() {
 		args = append(args, "NODWELL")
 	}
 	args = append(args, "ROAM", "fleet", [4]string{"*", "n2", "n[12]", "n*"}[pat], "1000")
+	// the fenced collection may exist before the fence does, and may be dropped and created again afterwards: the
+	// fence always looks at the collection that currently carries the name
+	hist := vchoose(3)
+	if hist > 0 {
+		vhDo(s, "SET", "fleet", "zfar", "POINT", "40", "-100")
+		vhDo(s, "SET", "fleet", "n1", "POINT", "40.001", "-100") // an earlier life of a neighbour, far away
+	}
 	_, _, err := vhDo(s, args...)
 	vassert("C20.setchan_ok", err == nil)
 	h := vhHook(s, "roamch")
+	if hist == 2 {
+		if vnondetBool() {
+			vhDo(s, "DROP", "fleet")
+		} else {
+			vhDo(s, "DEL", "fleet", "zfar")
+			vhDo(s, "DEL", "fleet", "n1")
+		}
+		vreach("collection-recreated")
+	}
 	for i, id := range vhRoamIDs {
 		vhDo(s, "SET", "fleet", id, "POINT", vhRoamN[i][0], vhRoamN[i][1])
 	}
